@@ -1,7 +1,9 @@
 //! C04 — Engine indices and exchange names translate both ways without mix-ups.
 //!
-//! E-SEQ over configurations (C11's 8-definition menu: 3 exchanges, shared asset names, `BTCUSDT` on two
-//! exchanges, Kraken calling btc `XBT`), five layers, all on the real code:
+//! E-SEQ over configurations (menu A = C11's 8-definition menu: 3 exchanges, shared asset names, `BTCUSDT` on two
+//! exchanges, Kraken calling btc `XBT`; menu B = `menu_b()`: names that differ between exchanges only by case,
+//! mixed case, a name that is a prefix of another, four instruments on one exchange), five layers, all on the
+//! real code:
 //!
 //! * **map**      every insertion order of every subset (size <= N) -> `IndexedInstruments` ->
 //!                `generate_execution_instrument_map` for every exchange of the menu -> exhaustive sweep of every
@@ -10,17 +12,25 @@
 //! * **indexer**  per distinct set x exchange: `AccountEventIndexer::order_request` for every (exchange index,
 //!                instrument index); every inbound kind (balance, order key, trade, order snapshot in 12 states
 //!                incl. the three key-carrying `ApiError`s, cancel response, full snapshot, `account_event`
-//!                wrapper, client error) for every (exchange id, instrument name, asset name) of the pools.
+//!                wrapper - also around a full snapshot -, client error) for every (exchange id, instrument name,
+//!                asset name) of the pools; full snapshots whose wrapper / snapshot / inner order keys disagree.
 //! * **manager**  per distinct set x exchange (E-ENV): the real `ExecutionManager::run` polled by hand on a paused
 //!                current-thread runtime with a recording stub `ExecutionClient`; one open and one cancel for
 //!                every instrument index (own / foreign / out of range) and a mis-addressed exchange index; the
 //!                request seen by the client and the response event sent back are compared with the definitions.
+//!                Then TWO requests through one manager: every ordered pair of own instruments x {open,cancel}^2 x
+//!                {same, distinct client order id} x {sequential, queued together} - a translation must not depend
+//!                on what the manager translated before.
 //! * **stream**   per distinct set x exchange (E-ENV): the real `ExecutionManager::init` (client snapshot + indexed,
 //!                reconnecting account stream, merged) polled by hand; the stub's account stream carries one event
 //!                of every kind for every pooled name and own-named events tagged with a foreign exchange id; the
-//!                delivered indexed events must be exactly the own-named ones, under the right indices.
-//! * **applied**  per distinct set x exchange: own-name balance / order / trade events are indexed and applied with
-//!                `EngineState::update_from_account`; the state is read back *by internal name*.
+//!                delivered indexed events must be exactly the own-named ones, under the right indices. A second
+//!                run uses a client that answers the snapshot request in another order than it was asked, with a
+//!                distinct balance per asset and an open order per instrument: every entry of the initial snapshot
+//!                must land on the entity it names.
+//! * **applied**  per distinct set x exchange: own-name balance / order / trade events, a full account snapshot
+//!                (names descending, distinct balances, one order per instrument) and a cancel response are indexed
+//!                and applied with `EngineState::update_from_account`; the state is read back *by internal name*.
 //!
 //! Ground truth comes from the *definitions* (exchange name of an instrument / asset) and from
 //! `IndexedInstruments::find_*_index(exchange, internal name)` for "the engine index of that entity" (that
@@ -58,11 +68,11 @@ use barter_execution::{
     trade::{AssetFees, Trade, TradeId},
 };
 use barter_instrument::{
-    Side,
-    asset::{AssetIndex, ExchangeAsset, QuoteAsset, name::{AssetNameExchange, AssetNameInternal}},
+    Side, Underlying,
+    asset::{Asset, AssetIndex, ExchangeAsset, QuoteAsset, name::{AssetNameExchange, AssetNameInternal}},
     exchange::{ExchangeId, ExchangeIndex},
     index::IndexedInstruments,
-    instrument::{InstrumentIndex, name::{InstrumentNameExchange, InstrumentNameInternal}},
+    instrument::{Instrument, InstrumentIndex, kind::InstrumentKind, name::{InstrumentNameExchange, InstrumentNameInternal}, quote::InstrumentQuoteAsset},
 };
 use barter_integration::{channel::{Tx, mpsc_unbounded}, snapshot::Snapshot};
 use itertools::Itertools;
@@ -151,6 +161,34 @@ fn pools(menu: &[Def]) -> Pools {
     }
 }
 
+/// Second menu ("B", local to this module): the same three exchanges, spot only, but with the name shapes the
+/// C11 menu ("A") does not have: exchange names that differ between exchanges ONLY BY CASE (`BTCUSDT` /
+/// `btcusdt` / `BtcUsdt`, assets `BTC` / `btc` / `Btc`), mixed-case names, one name a prefix of another on
+/// the same exchange (`BTCUSD` / `BTCUSDT`), and four instruments on one exchange. A name is an opaque,
+/// case-sensitive key: `btcusdt` is Kraken's instrument and not BinanceSpot's.
+fn menu_b() -> Vec<Def> {
+    use ExchangeId::*;
+    let a = |internal: &str, exchange: &str| Asset::new(internal, exchange);
+    let spot = |ex: ExchangeId, internal: &str, name: &str, base: Asset, quote: Asset| -> Def {
+        Instrument::new(ex, internal, name, Underlying::new(base, quote), InstrumentQuoteAsset::UnderlyingQuote, InstrumentKind::Spot, None)
+    };
+    vec![
+        spot(BinanceSpot, "btc_usdt.b", "BTCUSDT", a("btc", "BTC"), a("usdt", "USDT")),
+        spot(BinanceSpot, "btc_usd.b", "BTCUSD", a("btc", "BTC"), a("usd", "USD")),
+        spot(BinanceSpot, "eth_btc.b", "ETHBTC", a("eth", "ETH"), a("btc", "BTC")),
+        spot(BinanceSpot, "eth_usdt.b", "ETHUSDT", a("eth", "ETH"), a("usdt", "USDT")),
+        spot(Kraken, "btc_usdt.k", "btcusdt", a("btc", "btc"), a("usdt", "usdt")),
+        spot(Kraken, "eth_usdt.k", "EthUsdt", a("eth", "Eth"), a("usdt", "usdt")),
+        spot(Okx, "btc_usdt.o", "BtcUsdt", a("btc", "Btc"), a("usdt", "Usdt")),
+        spot(Okx, "btc_usd.o", "btcusd", a("btc", "Btc"), a("usd", "usd")),
+    ]
+}
+
+/// The menus this module sweeps: (tag used in replay cases, definitions).
+fn menus() -> Vec<(&'static str, Vec<Def>)> {
+    vec![("A", menu()), ("B", menu_b())]
+}
+
 /// The one comparison rule of this module. `want = Some(v)`: the input names entities of this exchange and must
 /// translate to exactly `v`; `want = None`: the input names something foreign / unknown and must not translate.
 fn judge<T: PartialEq + Debug, E: Debug>(kind: &str, want: Option<T>, got: Result<T, E>, input: impl Fn() -> String, out: &mut Vec<Viol>) {
@@ -160,6 +198,17 @@ fn judge<T: PartialEq + Debug, E: Debug>(kind: &str, want: Option<T>, got: Resul
         (Some(w), Ok(g)) => out.push((format!("C04/{kind}/own-gives-other-entity"), format!("{}: got {g:?}, expected {w:?}", input()))),
         (Some(w), Err(e)) => out.push((format!("C04/{kind}/own-rejected"), format!("{}: got Err({e:?}), expected {w:?}", input()))),
         (None, Ok(g)) => out.push((format!("C04/{kind}/foreign-translates"), format!("{}: got {g:?}, expected an error (not an entity of this exchange)", input()))),
+    }
+}
+
+/// Like `judge`, for inputs whose parts all name entities of this exchange but disagree with one another
+/// (an order filed under another own instrument's entry): refusing the input is as good as translating it,
+/// but a translation must be the right one.
+fn judge_if_translated<T: PartialEq + Debug, E: Debug>(kind: &str, want: T, got: Result<T, E>, input: impl Fn() -> String, out: &mut Vec<Viol>) {
+    if let Ok(g) = got {
+        if g != want {
+            out.push((format!("C04/{kind}/own-gives-other-entity"), format!("{}: got {g:?}, expected {want:?} (or a refusal)", input())));
+        }
     }
 }
 
@@ -457,6 +506,59 @@ fn check_indexer(truth: &Truth, ix: &IndexedInstruments, x: ExchangeId, map: &Ex
             judge("inbound/account-snapshot", want, indexer.snapshot(input), || here(format!("snapshot({y}, instruments [{n1} with order, {n2}])")), &mut out);
             *evals += 1;
         }
+        // full account snapshots whose parts disagree: the order inside an instrument entry is keyed with exchange
+        // id `y` (the snapshot itself says `x`) and with its own instrument name. Every part must name this
+        // exchange's entities for the snapshot to translate, and the order is indexed to the instrument IT names.
+        for (n1, n2) in pools.inst.iter().cartesian_product(pools.inst.iter()) {
+            let want = (|| {
+                own_ex.then_some(())?;
+                let (i1, i2) = (ti(n1)?, ti(n2)?);
+                Some(AccountSnapshot {
+                    exchange: xi,
+                    balances: vec![],
+                    instruments: vec![InstrumentAccountSnapshot { instrument: i1, orders: vec![order(xi, i2, "a", order_state(0, &AssetIndex(0), &InstrumentIndex(0)))] }],
+                })
+            })();
+            let input = AccountSnapshot {
+                exchange: x,
+                balances: vec![],
+                instruments: vec![InstrumentAccountSnapshot { instrument: n1.clone(), orders: vec![order(*y, n2.clone(), "a", order_state(0, &pools.asset[0], &pools.inst[0]))] }],
+            };
+            let describe = || here(format!("snapshot({x}, instruments [{n1} with an order keyed ({y}, {n2})])"));
+            match want {
+                Some(w) if n1 != n2 => judge_if_translated("inbound/account-snapshot", w, indexer.snapshot(input), describe, &mut out),
+                want => judge("inbound/account-snapshot", want, indexer.snapshot(input), describe, &mut out),
+            }
+            *evals += 1;
+        }
+        // the account_event wrapper around a full snapshot: wrapper exchange `y`, snapshot exchange `y2`
+        for y2 in &ex_pool {
+            let both = own_ex && *y2 == x;
+            for (k, a) in pools.asset.iter().enumerate() {
+                let n = &pools.inst[k % pools.inst.len()];
+                let want = (|| {
+                    both.then_some(())?;
+                    Some(AccountEvent {
+                        exchange: xi,
+                        kind: AccountEventKind::Snapshot(AccountSnapshot {
+                            exchange: xi,
+                            balances: vec![balance(ta(a)?, 3)],
+                            instruments: vec![InstrumentAccountSnapshot { instrument: ti(n)?, orders: vec![] }],
+                        }),
+                    })
+                })();
+                let input = AccountEvent {
+                    exchange: *y,
+                    kind: AccountEventKind::Snapshot(AccountSnapshot {
+                        exchange: *y2,
+                        balances: vec![balance(a.clone(), 3)],
+                        instruments: vec![InstrumentAccountSnapshot { instrument: n.clone(), orders: vec![] }],
+                    }),
+                };
+                judge("inbound/account-event", want, indexer.account_event(input), || here(format!("account_event({y}, full snapshot of {y2}: balance {a}, instrument {n})")), &mut out);
+                *evals += 1;
+            }
+        }
     }
     // client errors carrying keys
     for v in 0..N_API {
@@ -489,7 +591,20 @@ fn drive_manager(
     request: ExecutionRequest,
     reject_with: Option<barter_execution::error::UnindexedOrderError>,
 ) -> (Vec<Rec>, Vec<AccountStreamEvent>, Option<String>) {
-    fn go<const X: usize>(map: &ExecutionInstrumentMap, request: ExecutionRequest, cfg: StubCfg) -> (Vec<AccountStreamEvent>, Option<String>) {
+    drive_manager_seq(x, map, vec![request], false, reject_with)
+}
+
+/// Drive one fresh manager of exchange `x` with a sequence of requests (`burst`: all of them are queued before
+/// the manager is polled again; otherwise each is handed over once the manager has quiesced on the previous
+/// one, i.e. after the previous one was answered); returns (client log, response events, panic).
+fn drive_manager_seq(
+    x: ExchangeId,
+    map: &ExecutionInstrumentMap,
+    requests: Vec<ExecutionRequest>,
+    burst: bool,
+    reject_with: Option<barter_execution::error::UnindexedOrderError>,
+) -> (Vec<Rec>, Vec<AccountStreamEvent>, Option<String>) {
+    fn go<const X: usize>(map: &ExecutionInstrumentMap, requests: Vec<ExecutionRequest>, burst: bool, cfg: StubCfg) -> (Vec<AccountStreamEvent>, Option<String>) {
         let (req_tx, req_rx) = mpsc_unbounded::<ExecutionRequest>();
         let (resp_tx, mut resp_rx) = mpsc_unbounded::<AccountStreamEvent>();
         let manager = ExecutionManager::new(
@@ -502,12 +617,22 @@ fn drive_manager(
         let mut fut = Box::pin(manager.run());
         let (flag, waker) = flag_waker();
         assert!(matches!(poll_quiesce(fut.as_mut(), &flag, &waker), Poll::Pending), "harness: idle manager must be pending");
-        req_tx.send(request).expect("harness: manager alive");
-        let panic = match guarded(|| poll_quiesce(fut.as_mut(), &flag, &waker)) {
-            Ok(Poll::Pending) => None,
-            Ok(Poll::Ready(())) => Some("manager terminated".to_string()),
-            Err(p) => Some(p),
-        };
+        let mut panic = None;
+        let n = requests.len();
+        for (k, request) in requests.into_iter().enumerate() {
+            req_tx.send(request).expect("harness: manager alive");
+            if burst && k + 1 < n {
+                continue;
+            }
+            panic = match guarded(|| poll_quiesce(fut.as_mut(), &flag, &waker)) {
+                Ok(Poll::Pending) => None,
+                Ok(Poll::Ready(())) => Some("manager terminated".to_string()),
+                Err(p) => Some(p),
+            };
+            if panic.is_some() {
+                break; // the future is gone; nothing further can be delivered
+            }
+        }
         let mut events = Vec::new();
         while let Ok(ev) = resp_rx.rx.try_recv() {
             events.push(ev);
@@ -517,9 +642,9 @@ fn drive_manager(
     let cfg: StubCfg = Arc::new(Mutex::new(StubScript { log: vec![], reject_with, stream_events: vec![] }));
     let xpos = EX.iter().position(|e| *e == x).unwrap();
     let (events, panic) = match xpos {
-        0 => go::<0>(map, request, cfg.clone()),
-        1 => go::<1>(map, request, cfg.clone()),
-        _ => go::<2>(map, request, cfg.clone()),
+        0 => go::<0>(map, requests, burst, cfg.clone()),
+        1 => go::<1>(map, requests, burst, cfg.clone()),
+        _ => go::<2>(map, requests, burst, cfg.clone()),
     };
     let log = cfg.lock().unwrap().log.clone();
     (log, events, panic)
@@ -531,6 +656,51 @@ fn check_manager(truth: &Truth, ix: &IndexedInstruments, x: ExchangeId, map: &Ex
     let rt = paused_rt();
     let _g = rt.enter();
     let own_asset = truth.assets.iter().find(|e| e.ex == x).unwrap().clone();
+    let stub = EX.iter().position(|y| *y == x).unwrap();
+    // what the client must see for a request naming own instrument `n`
+    let want_rec = |is_open: bool, n: &InstrumentNameExchange, cid: &str| {
+        if is_open {
+            Rec::Open { stub, exchange: x, instrument: n.name().to_string(), cid: cid.to_string() }
+        } else {
+            Rec::Cancel { stub, exchange: x, instrument: n.name().to_string(), cid: cid.to_string() }
+        }
+    };
+    // the answer travels back under the original engine keys
+    let want_ev = |is_open: bool, g: usize, cid: &str, reject: bool| {
+        if is_open {
+            let state: OrderState = if reject {
+                OrderState::inactive(OrderError::Rejected(ApiError::BalanceInsufficient(own_asset.idx, "x".into())))
+            } else {
+                OrderState::active(Open { id: OrderId::new("stub-order"), time_exchange: t_plus(2), filled_quantity: Decimal::ZERO })
+            };
+            let r = request_open();
+            AccountStreamEvent::Item(AccountEvent {
+                exchange: xi,
+                kind: AccountEventKind::OrderSnapshot(Snapshot(Order {
+                    key: key(xi, InstrumentIndex(g), cid), side: r.side, price: r.price, quantity: r.quantity, kind: r.kind, time_in_force: r.time_in_force, state,
+                })),
+            })
+        } else {
+            AccountStreamEvent::Item(AccountEvent {
+                exchange: xi,
+                kind: AccountEventKind::OrderCancelled(OrderEvent {
+                    key: key(xi, InstrumentIndex(g), cid),
+                    state: if reject {
+                        Err(OrderError::Rejected(ApiError::BalanceInsufficient(own_asset.idx, "x".into())))
+                    } else {
+                        Ok(Cancelled { id: OrderId::new("stub-order"), time_exchange: t_plus(2) })
+                    },
+                }),
+            })
+        }
+    };
+    let make_request = |is_open: bool, e: ExchangeIndex, g: usize, cid: &str| {
+        if is_open {
+            ExecutionRequest::Open(OrderEvent { key: key(e, InstrumentIndex(g), cid), state: request_open() })
+        } else {
+            ExecutionRequest::Cancel(OrderEvent { key: key(e, InstrumentIndex(g), cid), state: RequestCancel { id: None } })
+        }
+    };
     // addressed exchange index: the right one, and (once per instrument) a wrong one
     let wrong_e = ExchangeIndex((xi.index() + 1) % (truth.exchanges.len() + 1));
     for g in 0..=ix.instruments().len() {
@@ -540,11 +710,7 @@ fn check_manager(truth: &Truth, ix: &IndexedInstruments, x: ExchangeId, map: &Ex
                 continue;
             }
             let cid = format!("m{g}");
-            let request = if is_open {
-                ExecutionRequest::Open(OrderEvent { key: key(e, InstrumentIndex(g), &cid), state: request_open() })
-            } else {
-                ExecutionRequest::Cancel(OrderEvent { key: key(e, InstrumentIndex(g), &cid), state: RequestCancel { id: None } })
-            };
+            let request = make_request(is_open, e, g, &cid);
             let reject_with = reject.then(|| OrderError::Rejected(ApiError::BalanceInsufficient(AssetNameExchange::new(own_asset.name_ex.as_str()), "x".into())));
             let (log, events, panic) = drive_manager(x, map, request, reject_with);
             *runs += 1;
@@ -559,11 +725,7 @@ fn check_manager(truth: &Truth, ix: &IndexedInstruments, x: ExchangeId, map: &Ex
                     }
                 }
                 Some(n) => {
-                    let want_rec = if is_open {
-                        Rec::Open { stub: EX.iter().position(|y| *y == x).unwrap(), exchange: x, instrument: n.name().to_string(), cid: cid.clone() }
-                    } else {
-                        Rec::Cancel { stub: EX.iter().position(|y| *y == x).unwrap(), exchange: x, instrument: n.name().to_string(), cid: cid.clone() }
-                    };
+                    let want_rec = want_rec(is_open, &n, &cid);
                     if log.is_empty() {
                         out.push(("C04/manager/own-instrument/never-reaches-client".into(), format!("{here}: client saw nothing; manager: {panic:?}")));
                         continue;
@@ -572,33 +734,7 @@ fn check_manager(truth: &Truth, ix: &IndexedInstruments, x: ExchangeId, map: &Ex
                         out.push(("C04/manager/own-instrument/client-addressed-with-other-name".into(), format!("{here}: client received {log:?}, expected {want_rec:?}")));
                         continue;
                     }
-                    // the answer travels back under the original engine keys
-                    let want_ev = if is_open {
-                        let state: OrderState = if reject {
-                            OrderState::inactive(OrderError::Rejected(ApiError::BalanceInsufficient(own_asset.idx, "x".into())))
-                        } else {
-                            OrderState::active(Open { id: OrderId::new("stub-order"), time_exchange: t_plus(2), filled_quantity: Decimal::ZERO })
-                        };
-                        let r = request_open();
-                        AccountStreamEvent::Item(AccountEvent {
-                            exchange: xi,
-                            kind: AccountEventKind::OrderSnapshot(Snapshot(Order {
-                                key: key(xi, InstrumentIndex(g), &cid), side: r.side, price: r.price, quantity: r.quantity, kind: r.kind, time_in_force: r.time_in_force, state,
-                            })),
-                        })
-                    } else {
-                        AccountStreamEvent::Item(AccountEvent {
-                            exchange: xi,
-                            kind: AccountEventKind::OrderCancelled(OrderEvent {
-                                key: key(xi, InstrumentIndex(g), &cid),
-                                state: if reject {
-                                    Err(OrderError::Rejected(ApiError::BalanceInsufficient(own_asset.idx, "x".into())))
-                                } else {
-                                    Ok(Cancelled { id: OrderId::new("stub-order"), time_exchange: t_plus(2) })
-                                },
-                            }),
-                        })
-                    };
+                    let want_ev = want_ev(is_open, g, &cid, reject);
                     if events != vec![want_ev.clone()] {
                         let cause = if events.is_empty() { "missing" } else { "indexed-to-other-entity" };
                         out.push((format!("C04/manager/response/{cause}"), format!("{here}: response events {events:?}, expected {want_ev:?}; manager: {panic:?}")));
@@ -607,7 +743,83 @@ fn check_manager(truth: &Truth, ix: &IndexedInstruments, x: ExchangeId, map: &Ex
             }
         }
     }
+    if !out.is_empty() {
+        return out; // the single-request runs already name the defect
+    }
+    // ---- two requests through ONE manager: every ordered pair of own instruments (incl. the same one twice) x
+    // {open, cancel}^2 x {distinct client order ids, the same id} x {second request after the first was answered,
+    // both queued before the manager runs}. A client order id identifies an order only together with its
+    // instrument (OrderKey), so the same id on two instruments names two orders. Each request must reach the
+    // client under its own instrument's name and be answered under its own engine key, whatever was sent
+    // before it. The order in which the client sees two queued requests of different kinds, and the order of
+    // the answers, are not prescribed: logs and answers are compared as multisets.
+    let own: Vec<(usize, InstrumentNameExchange)> = truth.instruments.iter().filter(|e| e.ex == x)
+        .map(|e| (e.idx.index(), InstrumentNameExchange::new(e.name_ex.as_str()))).sorted().collect();
+    for ((g1, n1), (g2, n2)) in own.iter().cartesian_product(own.iter()) {
+        for (k1, k2, same_cid, burst) in itertools::iproduct!([true, false], [true, false], [false, true], [false, true]) {
+            let (c1, c2) = if same_cid { ("p".to_string(), "p".to_string()) } else { ("p1".to_string(), "p2".to_string()) };
+            let requests = vec![make_request(k1, xi, *g1, &c1), make_request(k2, xi, *g2, &c2)];
+            let (log, events, panic) = drive_manager_seq(x, map, requests, burst, None);
+            *runs += 1;
+            let kind = |k: bool| if k { "open" } else { "cancel" };
+            let here = format!("manager of {x} ({xi}), {} for instrument {g1} (cid {c1}) then {} for instrument {g2} (cid {c2}){}",
+                kind(k1), kind(k2), if burst { ", both queued before the manager runs" } else { "" });
+            let canon = |v: Vec<String>| v.into_iter().sorted().collect::<Vec<_>>();
+            let got_log = canon(log.iter().map(|r| format!("{r:?}")).collect());
+            let want_log = canon(vec![format!("{:?}", want_rec(k1, n1, &c1)), format!("{:?}", want_rec(k2, n2, &c2))]);
+            if got_log != want_log {
+                let cause = if got_log.len() < want_log.len() { "request-never-reaches-client" } else { "client-addressed-with-other-name" };
+                out.push((format!("C04/manager/sequence/{cause}"), format!("{here}: client received {log:?}, expected (any order) {want_log:?}; manager: {panic:?}")));
+                continue;
+            }
+            let got_ev = canon(events.iter().map(|e| format!("{e:?}")).collect());
+            let want_evs = canon(vec![format!("{:?}", want_ev(k1, *g1, &c1, false)), format!("{:?}", want_ev(k2, *g2, &c2, false))]);
+            if got_ev != want_evs {
+                let cause = if got_ev.len() < want_evs.len() { "missing" } else { "indexed-to-other-entity" };
+                out.push((format!("C04/manager/sequence/response/{cause}"), format!("{here}: response events {events:?}, expected (any order) {want_evs:?}; manager: {panic:?}")));
+            }
+        }
+    }
     out
+}
+
+/// A client for the `stream` layer's second run: answers `account_snapshot` with a prepared snapshot (whatever
+/// order the names were requested in); its account stream stays silent.
+#[derive(Debug, Clone)]
+struct SnapStub<const X: usize> {
+    answer: Arc<barter_execution::UnindexedAccountSnapshot>,
+}
+
+impl<const X: usize> ExecutionClient for SnapStub<X> {
+    const EXCHANGE: ExchangeId = EX[X];
+    type Config = Arc<barter_execution::UnindexedAccountSnapshot>;
+    type AccountStream = futures::stream::BoxStream<'static, barter_execution::UnindexedAccountEvent>;
+
+    fn new(config: Self::Config) -> Self {
+        Self { answer: config }
+    }
+    async fn account_snapshot(&self, _: &[AssetNameExchange], _: &[InstrumentNameExchange]) -> Result<barter_execution::UnindexedAccountSnapshot, barter_execution::error::UnindexedClientError> {
+        Ok((*self.answer).clone())
+    }
+    async fn account_stream(&self, _: &[AssetNameExchange], _: &[InstrumentNameExchange]) -> Result<Self::AccountStream, barter_execution::error::UnindexedClientError> {
+        use futures::StreamExt;
+        Ok(futures::stream::pending().boxed())
+    }
+    async fn cancel_order(&self, _: barter_execution::order::request::OrderRequestCancel<ExchangeId, &InstrumentNameExchange>) -> barter_execution::order::request::UnindexedOrderResponseCancel {
+        unreachable!("harness: the stream layer sends no requests")
+    }
+    async fn open_order(&self, _: barter_execution::order::request::OrderRequestOpen<ExchangeId, &InstrumentNameExchange>) -> Order<ExchangeId, InstrumentNameExchange, Result<Open, barter_execution::error::UnindexedOrderError>> {
+        unreachable!("harness: the stream layer sends no requests")
+    }
+    async fn fetch_balances(&self) -> Result<Vec<AssetBalance<AssetNameExchange>>, barter_execution::error::UnindexedClientError> {
+        Ok(vec![])
+    }
+    async fn fetch_open_orders(&self) -> Result<Vec<Order<ExchangeId, InstrumentNameExchange, Open>>, barter_execution::error::UnindexedClientError> {
+        Ok(vec![])
+    }
+    async fn fetch_trades(&self, _: chrono::DateTime<chrono::Utc>) -> Result<Vec<Trade<QuoteAsset, InstrumentNameExchange>>, barter_execution::error::UnindexedClientError> {
+        Ok(vec![])
+    }
 }
 
 // ---------------------------------------------------------------------------------------------------------
@@ -652,13 +864,17 @@ fn check_stream(truth: &Truth, x: ExchangeId, map: &ExecutionInstrumentMap, pool
         }),
     };
 
-    fn go<const X: usize>(map: &ExecutionInstrumentMap, cfg: StubCfg) -> Result<Vec<AccountStreamEvent>, String> {
+    fn go<C>(map: &ExecutionInstrumentMap, client: C) -> Result<Vec<AccountStreamEvent>, String>
+    where
+        C: ExecutionClient + Send + Sync + 'static,
+        C::AccountStream: Send + 'static,
+    {
         let (_req_tx, req_rx) = mpsc_unbounded::<ExecutionRequest>();
         let (flag, waker) = flag_waker();
         let mut init = Box::pin(ExecutionManager::init(
             req_rx.into_stream(),
             Duration::from_secs(5),
-            Arc::new(Stub::<X>::new(cfg)),
+            Arc::new(client),
             AccountEventIndexer::new(Arc::new(map.clone())),
             barter_data::streams::consumer::STREAM_RECONNECTION_POLICY,
         ));
@@ -682,10 +898,20 @@ fn check_stream(truth: &Truth, x: ExchangeId, map: &ExecutionInstrumentMap, pool
     let rt = paused_rt();
     let _g = rt.enter();
     let cfg: StubCfg = Arc::new(Mutex::new(StubScript { log: vec![], reject_with: None, stream_events: script }));
-    let got = match EX.iter().position(|e| *e == x).unwrap() {
-        0 => go::<0>(map, cfg),
-        1 => go::<1>(map, cfg),
-        _ => go::<2>(map, cfg),
+    // normalise: list order inside the snapshot and order of events are not part of the statement
+    let norm = |ev: &AccountEvent| -> String {
+        let mut ev = ev.clone();
+        if let AccountEventKind::Snapshot(s) = &mut ev.kind {
+            s.balances.sort();
+            s.instruments.sort();
+        }
+        format!("{ev:?}")
+    };
+    let xpos = EX.iter().position(|e| *e == x).unwrap();
+    let got = match xpos {
+        0 => go(map, Stub::<0>::new(cfg)),
+        1 => go(map, Stub::<1>::new(cfg)),
+        _ => go(map, Stub::<2>::new(cfg)),
     };
     *evals += 1;
     let here = format!("account stream of {x} ({xi})");
@@ -696,15 +922,49 @@ fn check_stream(truth: &Truth, x: ExchangeId, map: &ExecutionInstrumentMap, pool
             return out;
         }
     };
-    // normalise: list order inside the snapshot and order of events are not part of the statement
-    let norm = |ev: &AccountEvent| -> String {
-        let mut ev = ev.clone();
-        if let AccountEventKind::Snapshot(s) = &mut ev.kind {
-            s.balances.sort();
-            s.instruments.sort();
+    // ---- second run: a client that answers the snapshot request in ANOTHER ORDER than it was asked (names
+    // descending), with a distinct balance per asset and one open order per instrument. Every balance and every
+    // order of the initial snapshot must land on the asset / instrument it NAMES; the position of an entry in
+    // the answer means nothing.
+    {
+        let own_assets: Vec<&Ent<AssetIndex>> = truth.assets.iter().filter(|e| e.ex == x).sorted_by(|a, b| b.name_ex.cmp(&a.name_ex)).collect();
+        let own_insts: Vec<&Ent<InstrumentIndex>> = truth.instruments.iter().filter(|e| e.ex == x).sorted_by(|a, b| b.name_ex.cmp(&a.name_ex)).collect();
+        let answer = AccountSnapshot {
+            exchange: x,
+            balances: own_assets.iter().enumerate().map(|(k, e)| balance(AssetNameExchange::new(e.name_ex.as_str()), 100 + k as i64)).collect(),
+            instruments: own_insts.iter().map(|e| {
+                let n = InstrumentNameExchange::new(e.name_ex.as_str());
+                InstrumentAccountSnapshot { instrument: n.clone(), orders: vec![order(x, n.clone(), "snap", order_state(0, &pools.asset[0], &n))] }
+            }).collect(),
+        };
+        let want_snapshot = AccountEvent {
+            exchange: xi,
+            kind: AccountEventKind::Snapshot(AccountSnapshot {
+                exchange: xi,
+                balances: own_assets.iter().enumerate().map(|(k, e)| balance(e.idx, 100 + k as i64)).collect(),
+                instruments: own_insts.iter().map(|e| InstrumentAccountSnapshot { instrument: e.idx, orders: vec![order(xi, e.idx, "snap", order_state(0, &AssetIndex(0), &e.idx))] }).collect(),
+            }),
+        };
+        let got2 = match xpos {
+            0 => go(map, SnapStub::<0>::new(Arc::new(answer))),
+            1 => go(map, SnapStub::<1>::new(Arc::new(answer))),
+            _ => go(map, SnapStub::<2>::new(Arc::new(answer))),
+        };
+        *evals += 1;
+        match got2 {
+            Err(e) => out.push(("C04/stream/breaks".into(), format!("{here}, snapshot answered in another order: {e}"))),
+            Ok(evs) => {
+                let items: Vec<String> = evs.iter().map(|ev| match ev {
+                    AccountStreamEvent::Item(item) => norm(item),
+                    other => format!("{other:?}"),
+                }).collect();
+                if items != vec![norm(&want_snapshot)] {
+                    out.push(("C04/stream/initial-snapshot/entry-lands-on-other-entity".into(),
+                        format!("{here}: client answered the snapshot request with its names in descending order; delivered {items:?}, expected {}", norm(&want_snapshot))));
+                }
+            }
         }
-        format!("{ev:?}")
-    };
+    }
     let mut got_items: Vec<String> = Vec::new();
     for ev in &got {
         match ev {
@@ -777,6 +1037,74 @@ fn check_applied(truth: &Truth, ix: &IndexedInstruments, x: ExchangeId, map: &Ex
                     out.push((format!("C04/applied/{what}/lands-on-other-entity"),
                         format!("{x} {what} event naming {}: instrument {} touched={touched:?}", own.name_ex, other.name_int)));
                 }
+            }
+        }
+    }
+    // ---- a FULL account snapshot (names descending, a distinct balance per asset, one open order per instrument)
+    // is indexed and applied in one go: every balance / order lands on the entity it names, nothing else moves
+    let own_assets: Vec<&Ent<AssetIndex>> = truth.assets.iter().filter(|e| e.ex == x).sorted_by(|a, b| b.name_ex.cmp(&a.name_ex)).collect();
+    let own_insts: Vec<&Ent<InstrumentIndex>> = truth.instruments.iter().filter(|e| e.ex == x).sorted_by(|a, b| b.name_ex.cmp(&a.name_ex)).collect();
+    let input = AccountEvent {
+        exchange: x,
+        kind: AccountEventKind::Snapshot(AccountSnapshot {
+            exchange: x,
+            balances: own_assets.iter().enumerate().map(|(k, e)| balance(AssetNameExchange::new(e.name_ex.as_str()), 200 + k as i64)).collect(),
+            instruments: own_insts.iter().map(|e| {
+                let n = InstrumentNameExchange::new(e.name_ex.as_str());
+                InstrumentAccountSnapshot { instrument: n.clone(), orders: vec![order(x, n.clone(), &format!("full-{}", e.name_int), order_state(0, &AssetNameExchange::new("-"), &n))] }
+            }).collect(),
+        }),
+    };
+    if let Ok(ev) = indexer.account_event(input) {
+        let mut s = base.clone();
+        *evals += 1;
+        match guarded(|| { s.update_from_account(&ev); }) {
+            Err(p) => out.push(("C04/applied/full-snapshot/panics".into(), format!("{x} full snapshot: {p}"))),
+            Ok(()) => {
+                for other in &truth.assets {
+                    let before = base.assets.0.get(&asset_key(other)).and_then(|st| st.balance.as_ref().map(|b| b.value));
+                    let after = s.assets.0.get(&asset_key(other)).and_then(|st| st.balance.as_ref().map(|b| b.value));
+                    let named = own_assets.iter().position(|e| e.ex == other.ex && e.name_int == other.name_int);
+                    let want = match named { Some(k) => Some(balance((), 200 + k as i64).balance), None => before };
+                    if after != want {
+                        out.push(("C04/applied/full-snapshot/balance-lands-on-other-entity".into(),
+                            format!("{x} full snapshot: asset ({}, {}) holds {after:?}, expected {want:?}", other.ex, other.name_int)));
+                    }
+                }
+                for other in &truth.instruments {
+                    let got: Vec<String> = s.instruments.0.get(&InstrumentNameInternal::new(other.name_int.as_str()))
+                        .map(|st| st.orders.0.keys().map(|c| c.0.to_string()).sorted().collect()).unwrap_or_default();
+                    let want: Vec<String> = if other.ex == x { vec![format!("full-{}", other.name_int)] } else { vec![] };
+                    if got != want {
+                        out.push(("C04/applied/full-snapshot/order-lands-on-other-entity".into(),
+                            format!("{x} full snapshot: instrument {} tracks orders {got:?}, expected {want:?}", other.name_int)));
+                    }
+                }
+            }
+        }
+    }
+    // ---- a cancel response removes the order of the instrument it names (and of no other): an order is opened on
+    // every own instrument under the same client order id, then one cancel response is indexed and applied
+    for own in truth.instruments.iter().filter(|e| e.ex == x) {
+        let mut s = base.clone();
+        let mut ready = true;
+        for e in truth.instruments.iter().filter(|e| e.ex == x) {
+            let open = AccountEvent { exchange: map.exchange.key, kind: AccountEventKind::OrderSnapshot(Snapshot(order(map.exchange.key, e.idx, "cx", order_state(0, &AssetIndex(0), &e.idx)))) };
+            ready &= guarded(|| { s.update_from_account(&open); }).is_ok();
+        }
+        let n = InstrumentNameExchange::new(own.name_ex.as_str());
+        let input = AccountEvent { exchange: x, kind: AccountEventKind::OrderCancelled(OrderEvent { key: key(x, n.clone(), "cx"), state: cancel_state(0, &AssetNameExchange::new("-"), &n) }) };
+        let (true, Ok(ev)) = (ready, indexer.account_event(input)) else { continue };
+        *evals += 1;
+        if let Err(p) = guarded(|| { s.update_from_account(&ev); }) {
+            out.push(("C04/applied/cancel/panics".into(), format!("{x} cancel response for {}: {p}", own.name_ex)));
+            continue;
+        }
+        for other in truth.instruments.iter().filter(|e| e.ex == x) {
+            let still = s.instruments.0.get(&InstrumentNameInternal::new(other.name_int.as_str())).map(|st| st.orders.0.contains_key(&ClientOrderId::new("cx")));
+            if still != Some(other.name_int != own.name_int) {
+                out.push(("C04/applied/cancel/lands-on-other-entity".into(),
+                    format!("{x} cancel response naming {}: instrument {} still tracks the order: {still:?}", own.name_ex, other.name_int)));
             }
         }
     }
@@ -894,30 +1222,11 @@ fn eval_deep(menu: &[Def], pools: &Pools, set: &[usize], xp: usize) -> Option<De
 
 pub fn run(ctx: &Ctx) -> Outcome {
     install_quiet_hook();
-    let menu = menu();
-    let pools = pools(&menu);
     let max_perm: usize = ctx.tier.pick(5, 8);
-
-    // ---- layer map: every insertion order of every subset up to max_perm definitions
     let map_evals = AtomicU64::new(0);
     let configs = AtomicU64::new(0);
     let distinct = Distinct::default();
     let samples = Samples::new(100_000); // candidates; sorted and cut to 6 below (deterministic under parallelism)
-    for k in 1..=max_perm.min(menu.len()) {
-        let perms: Vec<Vec<usize>> = (0..menu.len()).permutations(k).collect();
-        perms.into_par_iter().for_each(|seq| {
-            let mut n = 0u64;
-            for (xp, viols) in eval_map_layer(&menu, &pools, &seq, None, &mut n) {
-                for (sig, detail) in viols {
-                    ctx.violate(sig, detail, json!({"layer": "map", "seq": seq, "exchange": xp}));
-                }
-            }
-            map_evals.fetch_add(n, Ordering::Relaxed);
-            configs.fetch_add(1, Ordering::Relaxed);
-        });
-    }
-
-    // ---- layers indexer / manager / applied: every distinct set x every exchange it uses
     let idx_evals = AtomicU64::new(0);
     let mgr_runs = AtomicU64::new(0);
     let app_evals = AtomicU64::new(0);
@@ -925,36 +1234,57 @@ pub fn run(ctx: &Ctx) -> Outcome {
     let deep_cases = AtomicU64::new(0);
     let gated = AtomicU64::new(0);
     let consequences: Mutex<BTreeSet<String>> = Mutex::new(BTreeSet::new());
-    (1u32..(1 << menu.len())).into_par_iter().for_each(|mask| {
-        let set: Vec<usize> = (0..menu.len()).filter(|i| mask & (1 << i) != 0).collect();
-        for xp in 0..EX.len() {
-            let Some(d) = eval_deep(&menu, &pools, &set, xp) else { continue };
-            // distinct outcome = the translation table this exchange ended up with
-            if !d.map_fingerprint.is_empty() {
-                distinct.add(&d.map_fingerprint);
-                deep_cases.fetch_add(1, Ordering::Relaxed);
-            }
-            if mask % 37 == 5 && !d.sample.is_null() {
-                samples.offer(|| d.sample.clone());
-            }
-            for (layer, (sig, detail)) in d.viols {
-                let case = if layer == "map" { json!({"layer": "map", "seq": set, "exchange": xp}) } else { json!({"layer": layer, "set": set, "exchange": xp}) };
-                ctx.violate(sig, detail, case);
-            }
-            idx_evals.fetch_add(d.idx_evals, Ordering::Relaxed);
-            mgr_runs.fetch_add(d.mgr_runs, Ordering::Relaxed);
-            app_evals.fetch_add(d.app_evals, Ordering::Relaxed);
-            stream_runs.fetch_add(d.stream_runs, Ordering::Relaxed);
-            gated.fetch_add(d.gated, Ordering::Relaxed);
-            consequences.lock().unwrap().extend(d.consequences);
+
+    for (tag, menu) in menus() {
+        let pools = pools(&menu);
+        // ---- layer map: every insertion order of every subset up to max_perm definitions
+        for k in 1..=max_perm.min(menu.len()) {
+            let perms: Vec<Vec<usize>> = (0..menu.len()).permutations(k).collect();
+            perms.into_par_iter().for_each(|seq| {
+                let mut n = 0u64;
+                for (xp, viols) in eval_map_layer(&menu, &pools, &seq, None, &mut n) {
+                    for (sig, detail) in viols {
+                        ctx.violate(sig, detail, json!({"menu": tag, "layer": "map", "seq": seq, "exchange": xp}));
+                    }
+                }
+                map_evals.fetch_add(n, Ordering::Relaxed);
+                configs.fetch_add(1, Ordering::Relaxed);
+            });
         }
-    });
+
+        // ---- layers indexer / manager / stream / applied: every distinct set x every exchange it uses
+        (1u32..(1 << menu.len())).into_par_iter().for_each(|mask| {
+            let set: Vec<usize> = (0..menu.len()).filter(|i| mask & (1 << i) != 0).collect();
+            for xp in 0..EX.len() {
+                let Some(d) = eval_deep(&menu, &pools, &set, xp) else { continue };
+                // distinct outcome = the translation table this exchange ended up with
+                if !d.map_fingerprint.is_empty() {
+                    distinct.add(&format!("{tag}|{}", d.map_fingerprint));
+                    deep_cases.fetch_add(1, Ordering::Relaxed);
+                }
+                if mask % 37 == 5 && !d.sample.is_null() {
+                    samples.offer(|| { let mut v = d.sample.clone(); v["menu"] = json!(tag); v });
+                }
+                for (layer, (sig, detail)) in d.viols {
+                    let case = if layer == "map" { json!({"menu": tag, "layer": "map", "seq": set, "exchange": xp}) } else { json!({"menu": tag, "layer": layer, "set": set, "exchange": xp}) };
+                    ctx.violate(sig, detail, case);
+                }
+                idx_evals.fetch_add(d.idx_evals, Ordering::Relaxed);
+                mgr_runs.fetch_add(d.mgr_runs, Ordering::Relaxed);
+                app_evals.fetch_add(d.app_evals, Ordering::Relaxed);
+                stream_runs.fetch_add(d.stream_runs, Ordering::Relaxed);
+                gated.fetch_add(d.gated, Ordering::Relaxed);
+                consequences.lock().unwrap().extend(d.consequences);
+            }
+        });
+    }
 
     let total = map_evals.load(Ordering::Relaxed) + idx_evals.load(Ordering::Relaxed) + mgr_runs.load(Ordering::Relaxed) + app_evals.load(Ordering::Relaxed) + stream_runs.load(Ordering::Relaxed);
     Outcome {
         level: "exploration",
         coverage: json!({
             "evaluations": total,
+            "menus": 2,
             "map_configurations": configs.load(Ordering::Relaxed),
             "map_lookups": map_evals.load(Ordering::Relaxed),
             "max_permutation_size": max_perm,
@@ -967,21 +1297,27 @@ pub fn run(ctx: &Ctx) -> Outcome {
             "end_to_end_consequences_where_manager_layer_was_not_judged": consequences.lock().unwrap().iter().cloned().collect::<Vec<_>>(),
             "distinct_nontrivial": distinct.len(),
             "exhaustive": true,
-            "rule": "every insertion order of every subset (<= max_permutation_size) of the 8-definition menu x every exchange's ExecutionInstrumentMap x every global index / pooled name through find_*; every distinct subset x exchange through AccountEventIndexer (outbound order_request for every (exchange index, instrument index); inbound kinds x every pooled exchange id / instrument name / asset name), through ExecutionManager::run and ExecutionManager::init's account stream with a recording / scripted stub client (paused runtime, manual polling) and through EngineState::update_from_account",
+            "rule": "for each of two 8-definition menus (A: C11's - spot/perpetual/future/option, settlement-only and unit-only assets, shared names; B: names that differ between exchanges only by case, mixed case, prefix names, four instruments on one exchange): every insertion order of every subset (<= max_permutation_size) x every exchange's ExecutionInstrumentMap x every global index / pooled name through find_*; every distinct subset x exchange through AccountEventIndexer (outbound order_request for every (exchange index, instrument index); inbound kinds x every pooled exchange id / instrument name / asset name, incl. full snapshots whose wrapper / snapshot / inner order keys disagree), through ExecutionManager::run (one request per fresh manager for every instrument index; every ordered pair of requests for own instruments through ONE manager: {open,cancel}^2 x {same, distinct client order id} x {sequential, queued together}) and ExecutionManager::init's account stream with a recording / scripted stub client (paused runtime, manual polling) and through EngineState::update_from_account",
             "samples": samples.take().into_iter().sorted_by_key(|v| v.to_string()).take(6).collect::<Vec<_>>(),
         }),
         assumptions: vec![
             "the engine index of an entity is the one IndexedInstruments assigns (C11)".into(),
-            "an exchange names an instrument / asset one way; exchange names may repeat across exchanges".into(),
+            "an exchange names an instrument / asset one way; exchange names may repeat across exchanges; a name is an opaque case-sensitive key (a name that differs from an exchange's own name only by case is not that exchange's name)".into(),
             "the fate of an untranslatable request (error, panic, drop) is not prescribed; only that the client never receives it".into(),
-            "menu of 8 definitions over 3 exchanges; stub client answers immediately (timeouts are C07's subject)".into(),
+            "a client order id identifies an order only together with its instrument (OrderKey): two requests with the same id for two instruments are two orders".into(),
+            "the order in which the client sees two queued requests and the order of the two answers are not prescribed (compared as multisets)".into(),
+            "two menus of 8 definitions over 3 exchanges; stub client answers immediately (timeouts are C07's subject)".into(),
         ],
     }
 }
 
 pub fn replay(ctx: &Ctx, case: &Value) {
     install_quiet_hook();
-    let menu = menu();
+    let tag = case["menu"].as_str().unwrap_or("A");
+    let Some((_, menu)) = menus().into_iter().find(|(t, _)| *t == tag) else {
+        eprintln!("MACHINERY: unknown C04 replay menu {tag:?}");
+        std::process::exit(2)
+    };
     let pools = pools(&menu);
     let list = |k: &str| -> Vec<usize> {
         case[k].as_array().map(|a| a.iter().filter_map(|v| v.as_u64().map(|x| x as usize)).collect()).unwrap_or_default()
